@@ -53,12 +53,23 @@ Proof.
   intros H; inversion H; subst. exists (output st). split; [|reflexivity]. destruct P as ((HR & _) & _). exact HR.
 Qed.
 
-(* the assert of write_at: only with a buffer of 2^32 bytes *)
-Lemma write_at_assert_only_full dbg st f l c a data ko kp pa : Inv st -> allocated st a (len data) -> 0 < len data ->
-  write_stmt dbg st f l c a data ko kp pa = Panic P_write_at_assert -> exists s, active st = Active s /\ blen s = U32.
+(* the assert of write_at (addr <= curr_addr()) never fires: over an allocated range (fix 8bb2c3e: curr_addr saturates,
+   also for a buffer of 2^32 bytes), and nowhere in a whole pipeline run *)
+Lemma write_at_assert_never_stmt dbg st f l c a data ko kp pa : Inv st -> allocated st a (len data) -> 0 < len data ->
+  write_stmt dbg st f l c a data ko kp pa <> Panic P_write_at_assert.
 Proof.
   intros HI Ha Hl E.
   destruct (write_alloc dbg st f l c a data ko kp pa HI Ha Hl)
-    as [(s & EA & Hin & [W|(W & Eb)])|(Hin & m' & W & _)]; rewrite W in E; try discriminate.
-  exists s. split; assumption.
+    as [(s & EA & Hin & W)|(Hin & m' & W & _)]; rewrite W in E; discriminate.
+Qed.
+
+Theorem write_at_assert_never :
+  (forall dbg st f l c a data ko kp pa, Inv st -> allocated st a (len data) -> 0 < len data ->
+     write_stmt dbg st f l c a data ko kp pa <> Panic P_write_at_assert) /\
+  (forall dbg fs fuel path text, pipeline_gen dbg fs fuel path text <> PPanic P_write_at_assert).
+Proof.
+  split; [exact write_at_assert_never_stmt|].
+  intros dbg fs fuel path text. unfold pipeline_gen. pose proof (pipeline_inv dbg fs fuel path text) as P.
+  destruct (pipeline_state dbg fs fuel path text) as [s st|q|]; try discriminate.
+  intros H; inversion H; subst. apply P. exact I.
 Qed.
